@@ -47,6 +47,7 @@ type Run struct {
 	Sample      interface{}
 	Sub         map[string][]int // sub-space visits (name -> item indices)
 	cleanup     []func()
+	clkRestore  *Clock
 }
 
 func (r *Run) Probe(name string) { r.Probes[name]++ }
